@@ -473,7 +473,7 @@ func c19HertzClientCase(t *testing.T, admitted, fallback bool, handler string) {
 	if fallback {
 		opts = append(opts, WithClientBlockFallback(func(context.Context, *protocol.Request, *protocol.Response, error) error {
 			c.fallbackCalled()
-			return c19ErrFallback
+			return c19FbResult(handler)
 		}))
 	}
 	h := SentinelClientMiddleware(opts...)(func(ctx context.Context, req *protocol.Request, resp *protocol.Response) error {
@@ -493,8 +493,21 @@ func c19HertzClientCase(t *testing.T, admitted, fallback bool, handler string) {
 	var err error
 	c.EscapedPanic = c19Guard(func() { err = h(c19Ctx(context.Background()), req, resp) })
 	c.Response = c19ErrText(err)
+	if !admitted && fallback {
+		// the caller must get exactly what the fallback answered
+		c.Body, c.FallbackBody, c.BodyChecked = c19ErrText(err), c19ErrText(c19FbResult(handler)), true
+	}
 	c.DefaultRejectionSeen = c19IsBlockErr(err) && resp.StatusCode() == http.StatusTooManyRequests
 	c19Finish(t, c)
 }
 
 func init() { c19UsesCtx = true }
+
+// c19FbResult is what the configured fallback answers: an error of its own, or nil (graceful degradation: the
+// caller is served something else and must not see a rejection) - the handler dimension is free on the blocked path.
+func c19FbResult(handler string) error {
+	if handler == "ok" {
+		return nil
+	}
+	return c19ErrFallback
+}
